@@ -137,6 +137,12 @@ def write (l : List Bool) : SM Out := fun t =>
 
 def fail (e : String) : SM Out := fun t => (.err e, t)
 
+/-- `write (replicate n true ++ [false])` computed without materialising the `n` ones (`n` is a Go `uint`, up to
+2^64 − 1): the code of `WriteUnary` on the ideal state. Equal to that `write` by `writeUnary_spec_eq`. -/
+def writeUnary (n : Nat) : SM Out := fun t =>
+  if t.bits.length + (n + 1) ≤ t.cap then (.ok .unit, { t with bits := t.bits ++ (List.replicate n true ++ [false]) })
+  else (.err BitString.errOverflow, { t with bits := t.bits ++ List.replicate (t.cap - t.bits.length) true })
+
 /-- the next `n` unread bits, if there are that many -/
 def peek (t : Ideal) (n : Nat) : Option (List Bool) :=
   if t.bits.length < t.pos + n then none else some ((t.bits.drop t.pos).take n)
@@ -174,7 +180,7 @@ def spec : Op → SM Out
     if n = 0 ∨ BitString.bigBitLen v > n then fail "bit length is too small"
     else write (natToBits n v.toNat)
   | .writeBigInt v n => write (intToBits n v)
-  | .writeUnary n => write (List.replicate n true ++ [false])
+  | .writeUnary n => Ideal.writeUnary n
   | .writeLimUint v n => write (natToBits (bitLength n) v)
   | .readBit => read 1 fun l => .bool (l.headD false)
   | .skip n => read n fun _ => .unit
@@ -221,7 +227,6 @@ def WF : Op → Prop
   | .readLimUint n => n < 2 ^ 64
   | .writeBigUint v _ => 0 ≤ v                                          -- unsigned
   | .writeBigInt v n => n ≥ 1 ∧ -(2 : Int) ^ (n - 1) ≤ v ∧ v < (2 : Int) ^ (n - 1)   -- representable
-  | .writeUnary n => n < 2 ^ 63                                        -- `int(n)` does not wrap (a uint ≥ 2^63 writes no ones)
   | .writeBitString src => src.len ≤ 8 * src.buf.length                 -- the source holds its bits
   | .append src => src.len ≤ 8 * src.buf.length
   | _ => True
@@ -235,8 +240,7 @@ instance : (op : Op) → Decidable op.WF
   | .writeBigInt _ _ => by unfold WF; exact inferInstance
   | .writeBitString _ => by unfold WF; exact inferInstance
   | .append _ => by unfold WF; exact inferInstance
-  | .writeUnary _ => by unfold WF; exact inferInstance
-  | .writeBit _ | .writeBitArray _ | .writeByte _ | .writeBytes _ | .readBit | .skip _ | .readUint _
+  | .writeBit _ | .writeBitArray _ | .writeByte _ | .writeBytes _ | .writeUnary _ | .readBit | .skip _ | .readUint _
   | .pickUint _ | .readInt _ | .readByte | .readBytes _ | .readBits _ | .readRemainingBits | .readBigUint _
   | .readBigInt _ | .readUnary | .resetCounter | .grow _ | .copy => by unfold WF; exact inferInstance
 
